@@ -8,7 +8,7 @@ from bounded.common import main
 from liquid import Environment
 from liquid.exceptions import LiquidError
 
-TEXTS = ["a", "  ", " b ", "\n", "}} x", "% y"]
+TEXTS = ["a", "  ", " b ", "\n", "}} x", "% y", "c\n", "\n d \n\n"]
 
 
 def pieces():
